@@ -37,8 +37,9 @@ theorem first_batch_queued_at_call_height (s : State) (id : CtxId) (svc : SvcNam
     | some capv =>
       dsimp only at h ⊢
       split at h; · simp [fail] at h
-      rename_i h3
-      rw [if_neg h3]
+      split at h; · simp [fail] at h
+      rename_i h3 h4
+      rw [if_neg h3, if_neg h4]
       simp [addNewQ]
 
 /-- When a batch expires while the context is running, the next batch is queued exactly `frequency` blocks after
